@@ -218,8 +218,12 @@ func runC11(c *Ctx) error {
 			fail("the blocked channel delivered before it was released", "0", fmt.Sprint(len(blocked.snapshot())), "c11-harness")
 		}
 		want := strings.Join(sortedCopy(expected), "\n")
+		budget := 5 * time.Second
 		check := func(chName string, get func() []string) {
-			ok := waitFor(func() bool { return len(get()) >= len(expected) }, 5*time.Second)
+			ok := waitFor(func() bool { return len(get()) >= len(expected) }, budget)
+			if !ok {
+				budget = 150 * time.Millisecond // one channel already timed out: do not wait the full time for each of the others
+			}
 			time.Sleep(2 * time.Millisecond) // let a duplicate delivery, if any, arrive
 			got := strings.Join(sortedCopy(get()), "\n")
 			if !ok || got != want {
@@ -228,8 +232,16 @@ func runC11(c *Ctx) error {
 		}
 		check("recording", rec.snapshot)
 		check("slow", slow.snapshot)
-		check("websocket", func() []string { pubOK.mu.Lock(); defer pubOK.mu.Unlock(); return append([]string(nil), pubOK.events...) })
-		check("websocket(failing publisher)", func() []string { pubFail.mu.Lock(); defer pubFail.mu.Unlock(); return append([]string(nil), pubFail.events...) })
+		check("websocket", func() []string {
+			pubOK.mu.Lock()
+			defer pubOK.mu.Unlock()
+			return append([]string(nil), pubOK.events...)
+		})
+		check("websocket(failing publisher)", func() []string {
+			pubFail.mu.Lock()
+			defer pubFail.mu.Unlock()
+			return append([]string(nil), pubFail.events...)
+		})
 		check("webhook(failing target)", func() []string {
 			hook.mu.Lock()
 			defer hook.mu.Unlock()
